@@ -333,7 +333,8 @@ func closedChan() chan struct{} {
 // ---- xorCompressor: a Compressor/Decompressor pair simple enough to encode ----
 // compress(x) = 0xC5 marker byte followed by x with every byte XOR 0x5A.
 // The decompressor reads the whole source on the first Read after Reset
-// and fails if the marker is missing (a "corrupt" message).
+// and fails if the marker is missing (a "corrupt" message).  It also accepts
+// a run-length form (0xC6, n, b) that expands to n bytes.
 
 type xorCompressor struct {
 	w      io.Writer
@@ -402,6 +403,13 @@ func (d *xorDecompressor) Read(p []byte) (int, error) {
 		all, err := io.ReadAll(d.src)
 		if err != nil {
 			d.err = err
+		} else if len(all) == 3 && all[0] == 0xC6 {
+			// run-length form: 0xC6, n, b -> n copies of b (a message that
+			// is small on the wire and large once decompressed)
+			d.buf = make([]byte, int(all[1]))
+			for i := range d.buf {
+				d.buf[i] = all[2] ^ 0x5A
+			}
 		} else if len(all) == 0 || all[0] != 0xC5 {
 			d.err = errCorrupt
 		} else {
@@ -435,4 +443,42 @@ func newXorPool() *compressionPool {
 		func() Decompressor { return &xorDecompressor{} },
 		func() Compressor { return &xorCompressor{} },
 	)
+}
+
+// ---- gzipLikeDecompressor ------------------------------------------------------
+// A Decompressor with the life cycle of compress/gzip.Reader, which the
+// default options register: Reset reads and checks the stream header at once
+// (and fails on a corrupt one), and a Reader that has never been reset
+// successfully has no inner decompressor: Close dereferences nil.  The
+// format is the xorCompressor's.
+
+type gzipLikeDecompressor struct {
+	inner *xorDecompressor
+}
+
+func (d *gzipLikeDecompressor) Reset(r io.Reader) error {
+	var head [1]byte
+	n, err := io.ReadFull(r, head[:])
+	if n < 1 || err != nil {
+		if err == nil || err == io.EOF {
+			err = io.ErrUnexpectedEOF
+		}
+		return err
+	}
+	if head[0] != 0xC5 {
+		return errCorrupt
+	}
+	if d.inner == nil {
+		d.inner = &xorDecompressor{}
+	}
+	return d.inner.Reset(io.MultiReader(&wholeReader{data: []byte{0xC5}}, r))
+}
+
+func (d *gzipLikeDecompressor) Read(p []byte) (int, error) { return d.inner.Read(p) }
+
+func (d *gzipLikeDecompressor) Close() error { return d.inner.closeInner() }
+
+func (d *xorDecompressor) closeInner() error {
+	d.closes++ // d == nil: invalid memory address, as (*gzip.Reader).Close on a fresh Reader
+	return nil
 }
